@@ -1,6 +1,7 @@
 """Modelica connection-set semantics (spec ch. 9) for the C09 oracle: union-find over the connect
 graph; per set: potentials equal, sum of flows zero with inside connectors +, outside connectors -;
 flow variables of connectors that appear in no connect clause are zero."""
+import itertools
 
 
 def connection_sets(connectors, clauses):
@@ -42,3 +43,217 @@ def reference_equations(connectors, inside, potentials, flows, clauses, var):
         for f in flows:
             eqs.append(var(c, f) == 0)
     return eqs
+
+
+# ---------------------------------------------------------------------------------------------
+# General oracle: arrays of components / connectors, array-valued connector members, connect
+# clauses inside component classes (a connector is then an OUTSIDE connector of the clause written
+# in its own class and an INSIDE connector of a clause written one level up).
+#
+# A model description is a plain dict
+#   {"pot": [(member, dims)], "flo": [(member, dims)],
+#    "classes": {cname: {"pins": [(name, dims)], "subs": [(name, cname, dims)],
+#                        "clauses": [(ref, ref)]}},
+#    "top": cname}
+# dims are tuples of ints; ref is Modelica text such as "n[1].p", "t[2]", "P", "s" (whole array).
+# A connector INSTANCE is a tuple of (name, subscripts) pairs, e.g. (("n", (1,)), ("p", ())).
+# ---------------------------------------------------------------------------------------------
+
+
+def parse_ref(text):
+    parts = []
+    for tok in text.split("."):
+        if "[" in tok:
+            name, rest = tok.split("[", 1)
+            parts.append((name, tuple(int(x) for x in rest.rstrip("]").split(","))))
+        else:
+            parts.append((tok, None))
+    return parts
+
+
+def inst_str(inst):
+    return ".".join(n + ("[" + ",".join(map(str, ix)) + "]" if ix else "") for n, ix in inst)
+
+
+def _indices(dims):
+    return list(itertools.product(*[range(1, d + 1) for d in dims]))
+
+
+def instances(model, cname=None, prefix=()):
+    """All scalar connector instances below class cname, in declaration order."""
+    cls = model["classes"][cname or model["top"]]
+    out = []
+    for name, cn, dims in cls.get("subs", []):
+        for ix in _indices(dims):
+            out += instances(model, cn, prefix + ((name, ix),))
+    for name, dims in cls.get("pins", []):
+        for ix in _indices(dims):
+            out.append(prefix + ((name, ix),))
+    return out
+
+
+def _resolve(model, cname, ref):
+    """Ref text inside class cname -> (list of relative instances, inside?). A part without
+    subscripts that names an array stands for all its elements (row-major)."""
+    cls = model["classes"][cname]
+    parts = parse_ref(ref)
+    pins = {n: d for n, d in cls.get("pins", [])}
+    subs = {n: (cn, d) for n, cn, d in cls.get("subs", [])}
+
+    def choices(dims, ix):
+        if ix is None:
+            return _indices(dims)
+        if len(ix) != len(dims) or any(not 1 <= i <= d for i, d in zip(ix, dims)):
+            raise ValueError("subscript %r does not fit dimensions %r in %s" % (ix, dims, ref))
+        return [tuple(ix)]
+
+    if len(parts) == 1 and parts[0][0] in pins:
+        return [((parts[0][0], ix),) for ix in choices(pins[parts[0][0]], parts[0][1])], False
+    if len(parts) == 2 and parts[0][0] in subs:
+        cn, d = subs[parts[0][0]]
+        spins = {n: dd for n, dd in model["classes"][cn].get("pins", [])}
+        if parts[1][0] in spins:
+            return [((parts[0][0], a), (parts[1][0], b)) for a in choices(d, parts[0][1])
+                    for b in choices(spins[parts[1][0]], parts[1][1])], True
+    raise ValueError("cannot resolve connector reference %s in %s" % (ref, cname))
+
+
+def expanded_clauses(model, cname=None, prefix=()):
+    """Scalar connect clauses of the whole instance hierarchy:
+    [((instance, inside?), (instance, inside?))], clauses of enclosing classes last (irrelevant)."""
+    cname = cname or model["top"]
+    cls = model["classes"][cname]
+    out = []
+    for name, cn, dims in cls.get("subs", []):
+        for ix in _indices(dims):
+            out += expanded_clauses(model, cn, prefix + ((name, ix),))
+    for a, b in cls.get("clauses", []):
+        la, ia = _resolve(model, cname, a)
+        lb, ib = _resolve(model, cname, b)
+        if len(la) != len(lb):
+            raise ValueError("connect(%s, %s): sizes differ" % (a, b))
+        for x, y in zip(la, lb):
+            out.append(((prefix + x, ia), (prefix + y, ib)))
+    return out
+
+
+def role_sets(clauses):
+    """Connection sets over (instance, inside?) elements, in first-appearance order."""
+    parent, order = {}, []
+
+    def find(x):
+        while parent[x] != x:
+            parent[x] = parent[parent[x]]
+            x = parent[x]
+        return x
+
+    for l, r in clauses:
+        for e in (l, r):
+            if e not in parent:
+                parent[e] = e
+                order.append(e)
+        rl, rr = find(l), find(r)
+        if rl != rr:
+            parent[rr] = rl
+    sets = {}
+    for e in order:
+        sets.setdefault(find(e), []).append(e)
+    return list(sets.values())
+
+
+def flat_name(inst, member, mix=()):
+    """Name of the z3 constant of element mix of `member` of connector instance inst, following the
+    flat naming a.b.c[i,j,...] (all subscripts moved to the end, outermost level first)."""
+    base = ".".join(n for n, _ in inst) + "." + member
+    idx = [i for _, ix in inst for i in ix] + list(mix)
+    return base + ("[" + ",".join(map(str, idx)) + "]" if idx else "")
+
+
+def expected_symbols(model):
+    """{flat symbol name: dims} the flattened top class must declare for its connectors."""
+    out = {}
+
+    def rec(cname, names, dims):
+        cls = model["classes"][cname]
+        for name, cn, d in cls.get("subs", []):
+            rec(cn, names + [name], dims + tuple(d))
+        for name, d in cls.get("pins", []):
+            for m, md in model["pot"] + model["flo"]:
+                out[".".join(names + [name, m])] = dims + tuple(d) + tuple(md)
+
+    rec(model["top"], [], ())
+    return out
+
+
+def partially_connected_array_rest(model):
+    """Instances that appear in no clause although another element of the same array (same flat
+    name, different subscripts) does."""
+    used = {e[0] for cl in expanded_clauses(model) for e in cl}
+    used_bases = {tuple(n for n, _ in i) for i in used}
+    return [i for i in instances(model) if i not in used and tuple(n for n, _ in i) in used_bases]
+
+
+def general_reference_equations(model, var, only_zero_for=None):
+    """List of z3 constraints of the whole instance hierarchy. var(name) -> z3 Real.
+    With only_zero_for: just the `flow = 0` constraints of those instances."""
+    def members(ms):
+        return [(m, ix) for m, d in ms for ix in _indices(d)]
+
+    if only_zero_for is not None:
+        return [var(flat_name(i, m, ix)) == 0 for i in only_zero_for for m, ix in members(model["flo"])]
+    clauses = expanded_clauses(model)
+    sets = role_sets(clauses)
+    eqs = []
+    for s in sets:
+        insts = []
+        for i, _ in s:
+            if i not in insts:
+                insts.append(i)
+        for m, ix in members(model["pot"]):
+            for i in insts[1:]:
+                eqs.append(var(flat_name(insts[0], m, ix)) == var(flat_name(i, m, ix)))
+        for m, ix in members(model["flo"]):
+            total = None
+            for i, inside in s:
+                t = var(flat_name(i, m, ix)) if inside else -var(flat_name(i, m, ix))
+                total = t if total is None else total + t
+            eqs.append(total == 0)
+    used = {e[0] for cl in clauses for e in cl}
+    for i in instances(model):
+        if i not in used:
+            for m, ix in members(model["flo"]):
+                eqs.append(var(flat_name(i, m, ix)) == 0)
+    return eqs
+
+
+def render(model, extra_top_decls="", raw_top_equations=None):
+    """Modelica text of a model description. raw_top_equations replaces the top class's connect
+    clauses by the given equation-section text (for-loops etc.); the oracle still uses `clauses`."""
+    def dim(d):
+        return "[" + ",".join(map(str, d)) + "]" if d else ""
+
+    txt = "connector Pin\n" + "".join(f"  Real {m}{dim(d)};\n" for m, d in model["pot"])
+    txt += "".join(f"  flow Real {m}{dim(d)};\n" for m, d in model["flo"]) + "end Pin;\n"
+    done = []
+
+    def emit(cname):
+        nonlocal txt
+        if cname in done:
+            return
+        done.append(cname)
+        cls = model["classes"][cname]
+        for _, cn, _ in cls.get("subs", []):
+            emit(cn)
+        txt += f"model {cname}\n"
+        if cname == model["top"]:
+            txt += extra_top_decls
+        txt += "".join(f"  {cn} {n}{dim(d)};\n" for n, cn, d in cls.get("subs", []))
+        txt += "".join(f"  Pin {n}{dim(d)};\n" for n, d in cls.get("pins", []))
+        if cname == model["top"] and raw_top_equations is not None:
+            txt += "equation\n" + raw_top_equations
+        elif cls.get("clauses"):
+            txt += "equation\n" + "".join(f"  connect({a}, {b});\n" for a, b in cls["clauses"])
+        txt += f"end {cname};\n"
+
+    emit(model["top"])
+    return txt
